@@ -659,6 +659,21 @@ def file_check(res, seed):
             res.evaluations += 1
             if ex.fails:
                 break
+        # a peers.json that is already over the limit when the node starts (written by an older version, merged by hand,
+        # or the downloaded start-up list): the next saves must bring it back to <= 100 rows, newest first
+        if not ex.fails:
+            for n_pre in (101, 100 + rnd.randrange(2, 60), 260):
+                pre = [["10.9.%d.%d" % (q // 200, q % 200), 2412, ex.RP.OUTGOING, "2021-01-01T00:00:00Z"] for q in range(n_pre)]
+                with open("peers.json", "w") as f:
+                    json.dump(pre, f, indent=4)
+                ex.file_rows = [r[0:3] for r in pre]
+                for j in (rnd.randrange(len(ex.addrs)), rnd.randrange(len(ex.addrs))):
+                    h, p = ex.addrs[j]
+                    ex.disk.write_peers(ex.RP.RemotePeer(h, p, ex.RP.OUTGOING, None, 0))
+                    res.evaluations += 1
+                res.count("file_check_preexisting_oversize_files")
+                if ex.fails:
+                    break
         res.count("file_check_writes", len(order))
         res.count("crash_points", ex.flags["crash_points"])
         res.disjoint += ex.flags["crash_points"]
